@@ -100,6 +100,35 @@ func Gen(variant string) func(t *rapid.T) Plan {
 			p.Actors = append(p.Actors, a)
 		}
 
+		// template (one plan in four): a blocked TeardownAndDestroy / WatchFor / teardown-bound context on a resource held
+		// by finalizers, racing with the parties that release every finalizer and destroy the resource (the shape in
+		// which "no missed wake-up between marking and waiting" is decided; random actors rarely line up like this)
+		rate := 3
+		if variant != "wrap" {
+			rate = 1 // the gRPC variants run far fewer cases
+		}
+
+		if rapid.IntRange(0, rate).Draw(t, "race-template") == 0 {
+			p.Res[0] = InitRes{Exists: true, Phase: rapid.SampledFrom([]int{0, 0, 1}).Draw(t, "tphase"), Fins: rapid.SliceOfNDistinct(rapid.IntRange(0, 2), 1, 2, rapid.ID[int]).Draw(t, "tfins")}
+			blocked := Actor{K: rapid.SampledFrom([]string{"tad", "tad", "watchfor", "ctx"}).Draw(t, "tblocked"), Res: 0, Owner: 3}
+
+			if blocked.K == "watchfor" {
+				blocked.Cond = Cond{FinEmpty: true, Phases: rapid.SampledFrom([][]int{nil, {1}}).Draw(t, "tphases")}
+			}
+
+			p.Actors = []Actor{blocked}
+
+			for _, f := range p.Res[0].Fins {
+				p.Actors = append(p.Actors, Actor{K: "remfin", Res: 0, Owner: 3, Fin: f})
+			}
+
+			p.Actors = append(p.Actors, Actor{K: "destroy", Res: 0, Owner: 3})
+
+			if rapid.Bool().Draw(t, "tteardown") {
+				p.Actors = append(p.Actors, Actor{K: "teardown", Res: 0, Owner: 3})
+			}
+		}
+
 		p.Choices = rapid.SliceOfN(rapid.IntRange(0, 99), 40, 120).Draw(t, "choices")
 
 		return p
